@@ -48,10 +48,10 @@ type distCfg struct {
 	H     int     `json:"h,omitempty"`
 	Mont  bool    `json:"mont,omitempty"`
 	// ViaIface: built through ring.NewSampler instead of the concrete constructor.
-	ViaIface bool   `json:"viaNewSampler,omitempty"`
+	ViaIface bool `json:"viaNewSampler,omitempty"`
 	// OverView k > 0: the sampler is constructed over the level view r.AtLevel(k-1) of the ring and then raised to
 	// the maximum level with AtLevel (a sampler's level is a property of the view, not of its constructor).
-	OverView int `json:"builtOverLevelPlus1,omitempty"`
+	OverView int    `json:"builtOverLevelPlus1,omitempty"`
 	Tag      string `json:"tag"`
 }
 
